@@ -1207,6 +1207,17 @@ class RawAlgorithmsMixIn:
 
         (xbar_data, ybar_data) = out
 
+        # 1D operands act as row (x) resp. column (y) vectors
+        if x_data.ndim == 3:
+            x_data = x_data[:,:,None,:]
+            xbar_data = xbar_data[:,:,None,:]
+            zbar_data = zbar_data[:,:,None,...]
+
+        if y_data.ndim == 3:
+            y_data = y_data[...,None]
+            ybar_data = ybar_data[...,None]
+            zbar_data = zbar_data[...,None]
+
         xbar_data += cls._dot(zbar_data, cls._transpose(y_data), out = xbar_data.copy())
         ybar_data += cls._dot(cls._transpose(x_data), zbar_data, out = ybar_data.copy())
 
